@@ -1,6 +1,7 @@
 """C04 — flush barrier (safety skeleton): flush before wake, accounting fed by the drain, dead queue never panics."""
 from mq.util import *
 from mq.prov import Prov, place_fields, has_deref
+from rules.c01 import in_bg
 from rules.c05 import shutdown_summary, is_pop, is_stream_flush, find_thread_entries
 
 EXPL = ("R04.1 every clear/drop of the waiting-waker vector is dominated by the stream flush (through the flush closure, "
@@ -37,7 +38,7 @@ def run(ctx):
     wake_ops = ("clear", "drain", "truncate", "pop", "remove", "swap_remove", "retain", "split_off")
     trackers = []
     for b in F.all_bodies(BG):
-        if not b.path.startswith(BGMOD):
+        if not in_bg(F, b):
             continue
         pr = None
         for c in b.calls():
@@ -203,7 +204,7 @@ def run(ctx):
         for x in tb.calls():
             if x.args and any(y[0] == "arg" and y[1] == 1 and not y[2] for y in pr.operand(x.args[0])):
                 for hb in local_callee_bodies(F, x):
-                    if hb.crate == BG and hb.path.startswith(BGMOD) and hb is not tb and hb.arg_count >= 1 and tb.locals[1]["ty"] == hb.locals[1]["ty"]:
+                    if hb.crate == BG and in_bg(F, hb) and hb is not tb and hb.arg_count >= 1 and tb.locals[1]["ty"] == hb.locals[1]["ty"]:
                         helper_calls.append((x, hb))
         for x, hb in helper_calls:
             hpr = Prov(hb)
@@ -319,7 +320,7 @@ def run(ctx):
     # R04.5 dead queue never panics
     n5 = 0
     for b in F.all_bodies(BG):
-        if not b.path.startswith(BGMOD) or b.name != "flush_async" and not (b.kind == "Closure" and (b.parent or "").endswith("flush_async")):
+        if not in_bg(F, b) or b.name != "flush_async" and not (b.kind == "Closure" and (b.parent or "").endswith("flush_async")):
             continue
         n5 += 1
         bad = [c for c in b.calls() if c.is_("core::result::Result::<T, E>::unwrap", "core::result::Result::<T, E>::expect",
